@@ -1022,7 +1022,7 @@ where
     V: RecognizerReadable,
 {
     type Rec = HashMapRecognizer<K::Rec, V::Rec>;
-    type AttrRec = HashMapRecognizer<K::Rec, V::Rec>;
+    type AttrRec = CollaspsibleRec<HashMapRecognizer<K::Rec, V::Rec>>;
     type BodyRec = HashMapRecognizer<K::Rec, V::Rec>;
 
     fn make_recognizer() -> Self::Rec {
@@ -1030,7 +1030,16 @@ where
     }
 
     fn make_attr_recognizer() -> Self::AttrRec {
-        HashMapRecognizer::new_attr(K::make_recognizer(), V::make_recognizer())
+        // As for vectors, the map may be collapsed into the body of the attribute (`@attr(a: 1)`)
+        // or be present as an explicit record (`@attr({a: 1})`, which is also how an attribute
+        // holding a record is presented when reading from a `Value`).
+        FirstOf::new(
+            HashMapRecognizer::new_attr(K::make_recognizer(), V::make_recognizer()),
+            SimpleAttrBody::new(HashMapRecognizer::new(
+                K::make_recognizer(),
+                V::make_recognizer(),
+            )),
+        )
     }
 
     fn make_body_recognizer() -> Self::BodyRec {
